@@ -58,7 +58,16 @@ def rule_c17(ob, clause, wit):
   return None
 
 
-RULES = {"C17": rule_c17}
+FINDINGS["C10-str-omits-options"] = "__str__ prints only the main options: a quantizer with a non-default qnoise_factor, scale_axis, elements_per_scale, min/max_po2_exponent, post_training_scale, relu_upper_bound, is_quantized_clip or log2_rounding prints the same text as the default one, so the text re-parses to a quantizer that computes a different function"
+
+
+def rule_c10(ob, clause, wit):
+  if clause.startswith("omitted_"):
+    return "C10-str-omits-options", "true"
+  return None
+
+
+RULES = {"C17": rule_c17, "C10": rule_c10}
 
 
 def main(prop):
